@@ -561,6 +561,16 @@ pub fn check_mut(rep: &mut Report, script: &[String], rng: &mut Rng) {
             // ADD ANNOTATION: data and one target per row (optionally a second target from a nested sub-query)
             let (set, key, val) = match v.data.first() { Some(x) => x.clone(), None => ("newset".to_string(), "newkey".to_string(), "newval".to_string()) };
             let val = if rng.chance(50) { val } else { format!("added{}", rng.below(5)) };
+            // the value as written in the query and the value the direct call is given: a string between quotes, or (one time
+            // in three) an unquoted literal of another type
+            let (val_txt, val_dv): (String, DataValue) = match rng.below(9) {
+                0 => ("5".into(), DataValue::Int(5)),
+                1 => ("-12".into(), DataValue::Int(-12)),
+                2 => ("2.5".into(), DataValue::Float(2.5)),
+                3 => (if rng.chance(50) { "true".into() } else { "false".into() }, DataValue::Bool(rng.chance(50))),
+                _ => (q(&val), DataValue::String(val.clone())),
+            };
+            let (val_txt, val_dv) = if let DataValue::Bool(_) = val_dv { let b = rng.chance(50); ((if b { "true" } else { "false" }).to_string(), DataValue::Bool(b)) } else { (val_txt, val_dv) };
             let with_id = rng.chance(30);
             let two = rng.chance(30) && matches!(sel.rtype, "ANNOTATION" | "TEXT" | "RESOURCE");
             let kind = *rng.pick(&["", "COMPOSITE ; ", "MULTI ; ", "DIRECTIONAL ; "]);
@@ -580,7 +590,7 @@ pub fn check_mut(rep: &mut Report, script: &[String], rng: &mut Rng) {
             // TARGET ?x OFFSET b e: the part of ?x's text the offset selects (relative to ?x, end-aligned cursors counted from ?x's end)
             let offset_txt: Option<&str> = if !two && matches!(sel.rtype, "TEXT" | "ANNOTATION") && rng.chance(45) { Some(*rng.pick(&["0 1", "1 -1", "-2 -0", "0 -0", "1", "-1", "0 99", "2 1", "-3 -1"])) } else { None };
             let offset: Option<Offset> = offset_txt.map(|t| { let mut it = t.split(' '); let c1 = Cursor::try_from(it.next().unwrap()).unwrap(); let c2 = it.next().map(|x| Cursor::try_from(x).unwrap()).unwrap_or(Cursor::EndAligned(0)); Offset::new(c1, c2) });
-            let text = format!("ADD ANNOTATION ?n WITH {}DATA {} {} {}; TARGET ?x{}; {}{}{{ {} }}", if with_id { "ID \"added-by-query\"; " } else { "" }, q(&set), q(&key), q(&val), offset_txt.map(|t| format!(" OFFSET {}", t)).unwrap_or_default(), if two { "TARGET ?y; " } else { "" }, if two { kind } else { "" }, sel.text());
+            let text = format!("ADD ANNOTATION ?n WITH {}DATA {} {} {}; TARGET ?x{}; {}{}{{ {} }}", if with_id { "ID \"added-by-query\"; " } else { "" }, q(&set), q(&key), val_txt, offset_txt.map(|t| format!(" OFFSET {}", t)).unwrap_or_default(), if two { "TARGET ?y; " } else { "" }, if two { kind } else { "" }, sel.text());
             rep.count(&format!("query2:add:{}{}{}", sel.rtype, if two { ":two-targets" } else { "" }, if offset.is_some() { ":offset" } else { "" }));
             rep.case(Some(&format!("{}|{}", script.join("|"), text)));
             let r1 = run_mut(&mut via_query.store, &text);
@@ -601,7 +611,7 @@ pub fn check_mut(rep: &mut Report, script: &[String], rng: &mut Rng) {
                             _ => continue,
                         }];
                     }
-                    let mut b = AnnotationBuilder::new().with_data(set.clone(), key.clone(), val.clone());
+                    let mut b = AnnotationBuilder::new().with_data(set.clone(), key.clone(), val_dv.clone());
                     if with_id { b = b.with_id("added-by-query"); }
                     b = if sels.len() == 1 && !(two && !kind.is_empty()) { b.with_target(sels.into_iter().next().unwrap()) } else { match kind { "MULTI ; " => b.with_target(SelectorBuilder::MultiSelector(sels)), "DIRECTIONAL ; " => b.with_target(SelectorBuilder::DirectionalSelector(sels)), _ => b.with_target(SelectorBuilder::CompositeSelector(sels)) } };
                     builders.push(b);
